@@ -27,11 +27,11 @@ import (
 
 // Policy of choosing among runnable tasks.
 type Policy struct {
-	Kind   string  // "uniform" | "sticky" | "starve" | "pct"
-	Stick  float64 // sticky: probability to continue the task released last
-	Starve string  // starve: id prefix that is not chosen for StarveSteps steps (a stalled node), while others are runnable
+	Kind        string  // "uniform" | "sticky" | "starve" | "pct"
+	Stick       float64 // sticky: probability to continue the task released last
+	Starve      string  // starve: id prefix that is not chosen for StarveSteps steps (a stalled node), while others are runnable
 	StarveSteps int
-	PCTDepth int // pct: number of priority change points
+	PCTDepth    int // pct: number of priority change points
 }
 
 type entry struct {
@@ -190,6 +190,14 @@ func (s *Sched) Release(name string, excl bool) {
 	}
 	s.mu.Unlock()
 	s.signal()
+}
+
+// EndStarve ends the starvation phase of a "starve" policy now (called by the running task, e.g. once the backlog the
+// starvation was meant to build exists).
+func (s *Sched) EndStarve() {
+	s.mu.Lock()
+	s.pol.StarveSteps = 0
+	s.mu.Unlock()
 }
 
 // Go starts a harness task. The task starts parked (at "<name>:start") and should Yield between its steps.
